@@ -498,6 +498,19 @@ outer:
 							ops := append(append(append([]Op(nil), base[:k]...), Op{SetHead: &mm}), base[k:]...)
 							runOne(s, tr, txs, ops, false)
 							runOne(s, tr, txs, ops, true)
+							// ... and, after the rest of the history, the blocks the rewind removed arrive once more
+							// (a peer serves them again): one block per call, in the original order
+							var again []Op
+							for _, o := range base[:k] {
+								for _, i := range o.Ins {
+									if int(tr.Blocks[i].NumberU64()) > m {
+										again = append(again, Op{Ins: []int{i}})
+									}
+								}
+							}
+							if len(again) > 0 && len(s.Parent) <= 3 {
+								runOne(s, tr, txs, append(append([]Op(nil), ops...), again...), false)
+							}
 						}
 					}
 				}
